@@ -33,6 +33,10 @@ type Config struct {
 	MaxIdle    int // how many times the controller may advance virtual time when nothing is enabled
 	IdleStep   time.Duration
 	MaxSteps   int
+	// DelayBound makes every non-default thread choice cost one unit of MaxPreempt, also
+	// when the previously running thread is blocked (delay-bounded scheduling over the
+	// canonical default order) instead of only preemptions.
+	DelayBound bool
 }
 
 // Stats summarises an exploration.
@@ -83,6 +87,9 @@ func runBubble(t *testing.T, cfg Config, prefix []int, verbose bool, body func(s
 		}
 		if cfg.MaxSteps > 0 {
 			s.MaxSteps = cfg.MaxSteps
+		}
+		if cfg.DelayBound {
+			s.FreeSwitchCost = 1
 		}
 		active.Store(s)
 		defer active.Store(nil)
